@@ -28,6 +28,7 @@ def check(chk, thorough=False):
     chk.run('C17.e2', 'R-PAIR', 'transfers that are finished or abandoned leave the TX map (with the right key), so later peer messages about them are rejected as unknown (= C18.c)', lambda ob: _c18c(tree, ob), floor=8)
     chk.run('C17.h', 'R-GUARD', 'a transfer awaits its acknowledgement only once its END segment is out: a premature final XFER_ACK finds nothing to finish (= C18.d)', lambda ob: __import__('sa.props.c18', fromlist=['c18d']).c18d(tree, ob), floor=7)
     chk.run('C17.i', 'R-FLOW', 'what this side sends is its messages one after the other: the transmit buffer is only appended to (a reply is never put in front of octets already queued) (= C01.b)', lambda ob: __import__('sa.props.c01', fromlist=['c01b']).c01b(tree, ob), floor=7)
+    chk.run('C17.j', 'R-FRESH', 'a peer message about a transfer ID touches this session only: the transfer maps and queues are created per contact object, never shared through the class (= C01.g)', lambda ob: __import__('sa.props.c01', fromlist=['c01g']).c01g(tree, ob), floor=6)
     chk.run('C17.e', 'R-FLOW', 'peer-driven handlers change TX state only for the transfer they looked up by the peer id', lambda ob: c17e(tree, ob), floor=3)
 
 
